@@ -570,17 +570,17 @@ Proof.
 Qed.
 
 Lemma probsQ_sum (l : list Q) : ~ (kappaQ l == 0)%Q -> (sumQ (probsQ l) == 1)%Q.
-Proof. intros H. unfold probsQ. rewrite sumQ_div. now field. Qed.
+Proof. intros H. unfold probsQ. cbv zeta. rewrite sumQ_div. now field. Qed.
 
 Lemma probsQ_spec (l : list Q) : Forall2 Qeq (probsQ l) (map (fun c => (Qabs c / kappaQ l)%Q) l).
 Proof.
-  unfold probsQ. generalize (kappaQ l) as k. intros k.
+  unfold probsQ. cbv zeta. generalize (kappaQ l) as k. intros k.
   induction l as [|x l IH]; cbn [map]; [constructor|]. constructor; [apply Qred_correct|exact IH].
 Qed.
 
 Lemma probsQ_nonneg (l : list Q) : Forall (fun p => (0 <= p)%Q) (probsQ l).
 Proof.
-  unfold probsQ. apply Forall_forall. intros p Hp. apply in_map_iff in Hp as (c & <- & _).
+  unfold probsQ. cbv zeta. apply Forall_forall. intros p Hp. apply in_map_iff in Hp as (c & <- & _).
   rewrite Qred_correct.
   pose proof (kappaQ_nonneg l) as Hk. pose proof (Qabs_nonneg c) as Hc.
   destruct (Qeq_dec (kappaQ l) 0) as [E|N].
@@ -591,7 +591,7 @@ Proof.
 Qed.
 
 Lemma probsQ_length l : length (probsQ l) = length l.
-Proof. unfold probsQ. apply map_length. Qed.
+Proof. unfold probsQ. cbv zeta. apply map_length. Qed.
 
 Lemma sumR_div (l : list R) (k : R) : sumR (map (fun c => Rabs c / k) l) = kappaR l / k.
 Proof. induction l as [|x l IH]; simpl; [unfold Rdiv; ring|]. rewrite IH. unfold Rdiv. ring. Qed.
